@@ -244,8 +244,21 @@ def gen_pool(r):
     attr_shape = r.choice([(8, 8, 8), (4, 6, 16)])
     attr_q = [r.choice([0.02, 0.005, 0.002]), r.choice([-10, 0, 100])]  # fine output steps: the two GELU flavours differ by < 1e-3
     for k in range(r.choice([3, 4, 5])):
-        style = r.choice(["lut", "lut", "conv", "generated", "generated", "branchy", "branchy", "lut_attr", "lut_attr"])
-        if style == "lut_attr":
+        style = r.choice(["lut", "lut", "conv", "generated", "generated", "branchy", "branchy", "lut_attr", "lut_attr", "cpu_ops"])
+        if style == "cpu_ops":
+            # several different operators that stay on the CPU (third-party custom operators of the same version, builtins the NPU
+            # does not implement): everything the writer emits about them - operator-code table, order, indices - has to be a
+            # function of the network, not of the interpreter's hash seed
+            H, W, C = r.choice([(8, 8, 8), (4, 6, 16)])
+            layers = [dict(op="CONV_2D", k=[1, 1], oc=8, stride=[1, 1], dil=[1, 1], pad="SAME", act="NONE", q=[0.05, 0], per_axis=False, wstyle="uniform",
+                           wscale=0.01, bias=True, seed=shared_seed, **{"in": [0]})]
+            codes = r.sample(["AlphaOp", "BetaOp", "VerifThirdParty", "OtherVendorOp", "zz_op", "A", "Gamma.v2"], r.choice([2, 2, 3, 4]))
+            for cd in codes:
+                layers.append(dict(op="CUSTOM", code=cd, options=[r.randrange(256) for _ in range(r.randint(0, 4))], seed=1, **{"in": [len(layers)]}))
+                if r.random() < 0.3:
+                    layers.append(dict(op="RELU", seed=1, **{"in": [len(layers)]}))
+            rec = dict(name="net", inputs=[dict(shape=[1, H, W, C], dtype="int8", q=[0.05, -3])], layers=layers, outputs=[len(layers)], dup_names=False)
+        elif style == "lut_attr":
             # the same table operator on the same quantisation in several models of the pool, differing only in an attribute
             # (or not at all): whatever the compiler memoises about such an operator must depend on everything the table does
             H, W, C = attr_shape
